@@ -186,6 +186,16 @@ func (s *Stream) SetReadDeadline(deadline time.Time) error {
 				default:
 				}
 				s.lock.Lock()
+				select {
+				case <-readTimeoutCancel:
+					// The deadline was replaced (or the stream ended) between the
+					// check above and taking the lock: SetReadDeadline closes the
+					// channel with the lock held, so this check is final.
+					s.lock.Unlock()
+
+					return
+				default:
+				}
 				if s.readErr == nil {
 					s.readErr = ErrReadDeadlineExceeded
 				}
